@@ -26,11 +26,13 @@ ALT_TAG = re.sub(r"[^A-Za-z0-9]+", "_", REPO).strip("_") if ALT else ""
 if ALT:
     import shutil
     _dst = os.path.join(WORK, "shim-crate-" + ALT_TAG)
-    shutil.rmtree(_dst, ignore_errors=True)
-    shutil.copytree(SHIM, _dst, ignore=shutil.ignore_patterns("target"))
-    _ct = os.path.join(_dst, "Cargo.toml")
-    _t = open(_ct).read()
-    open(_ct, "w").write(_t.replace('"/repo/', '"%s/' % REPO.rstrip("/")))
+    if os.environ.get("VERIF_ALT_SHIM_READY") != _dst:   # worker processes reuse the main process's copy
+        os.environ["VERIF_ALT_SHIM_READY"] = _dst
+        shutil.rmtree(_dst, ignore_errors=True)
+        shutil.copytree(SHIM, _dst, ignore=shutil.ignore_patterns("target"))
+        _ct = os.path.join(_dst, "Cargo.toml")
+        _t = open(_ct).read()
+        open(_ct, "w").write(_t.replace('"/repo/', '"%s/' % REPO.rstrip("/")))
     SHIM = _dst
 
 MIR_FLAGS = ["-Zunpretty=mir", "-Ztrim-diagnostic-paths=no"]
